@@ -238,9 +238,12 @@ func Monitors(h History, tr *Trace) []Failure {
 				add("C13", "C13/missed-counter-differs-from-bitmap", height, "cons key %d: counter %d, bits %d", i, g.Missed, g.BitMissed)
 			}
 		}
-		// C13 (a): jailed validators are out of the set
+		// C13 (a): jailed validators are out of the set — and so is their consensus key, whoever else claims it
 		for id, v := range s.Vals {
 			if v.Jailed {
+				if p, in := s.CometNext[v.Cons]; in && owner[v.Cons] != id {
+					add("C13", "C13/jailed-validators-consensus-key-in-next-set", height, "validator %d is jailed, its key %d has power %d", id, v.Cons, p)
+				}
 				if p, in := s.CometNext[v.Cons]; in && owner[v.Cons] == id {
 					add("C13", "C13/jailed-validator-in-next-set", height, "validator %d power %d", id, p)
 				}
@@ -595,6 +598,12 @@ func Monitors(h History, tr *Trace) []Failure {
 			curMin := big.NewInt(0)
 			if pf := strings.Fields(prev.Params); len(pf) == 6 {
 				curMin = bigOf(pf[5])
+			}
+			// a key of a type the chain's consensus parameters list (both types of the pool) is never refused as unsupported
+			for i, t := range bt.Spec.Txs {
+				if i < len(bt.TxOut) && bt.TxOut[i] == "err 2 6" && len(t.Msgs) == 1 && t.Msgs[0].Kind == "create" && t.Msgs[0].Cons >= 0 && t.Msgs[0].Cons < poolSize {
+					add("C15", "C15/supported-key-type-refused", ht, "consensus key %d", t.Msgs[0].Cons)
+				}
 			}
 			for i, t := range bt.Spec.Txs {
 				if i >= len(bt.TxOut) || bt.TxOut[i] != "pass" {
